@@ -14,6 +14,9 @@
 //                       A:<key>,(,..,)     OpenArrayScope(key)  ; array items        ; child destroyed
 //                       B:<key>:<n>        OpenBinaryScope(key) ; n x SerializeValue(char&) ; destroyed
 //                       V                  VisitKeys
+//                       E,(,acts,)         VisitKeys with a callback that runs the i-th action on the i-th key it is handed:
+//                                          k (nothing) | x:<M|O> (throws that SerializationException) | g:<target> | o,(,..,) | a,(,..,)
+//                                          | b:<n> | c:<n>,(,..,) (binary scope and n bytes, array scope when declined)
 //        array scope:   g:<target> | o,(,..,) | a,(,..,) | b:<n> | e (IsEnd)
 //        key   : s<hex|-> std::string | u<hex> uint64_t | i<shex> int64_t | f<hexbits> float
 //                | d<hexbits> double | t<shex>_<shex> CBinTimestamp
@@ -98,10 +101,12 @@ static std::vector<Node> parse_items(const std::vector<std::string>& t, size_t& 
 		case 'O': case 'A': nd.key = f.at(1); break;
 		case 'g': nd.target = f.at(1); break;
 		case 'b': nd.n = std::strtoull(f.at(1).c_str(), nullptr, 10); break;
-		case 'V': case 'e': case 'o': case 'a': break;
+		case 'V': case 'e': case 'o': case 'a': case 'E': case 'k': break;
+		case 'x': nd.target = f.at(1); break;
+		case 'c': nd.n = std::strtoull(f.at(1).c_str(), nullptr, 10); break;
 		default: throw DriverError{"bad history item"};
 		}
-		if (nd.kind == 'O' || nd.kind == 'A' || nd.kind == 'o' || nd.kind == 'a') {
+		if (nd.kind == 'O' || nd.kind == 'A' || nd.kind == 'o' || nd.kind == 'a' || nd.kind == 'E' || nd.kind == 'c') {
 			if (i >= t.size() || t[i] != "(") throw DriverError{"( expected"};
 			++i;
 			nd.body = parse_items(t, i);
@@ -193,6 +198,50 @@ static void walk_obj(ObjScope& sc, const std::vector<Node>& items) {
 			std::string keys;
 			sc.VisitKeys([&](auto&& key) { if (!keys.empty()) keys.push_back(';'); keys += key_text(key); });
 			emit("K[" + keys + "]");
+			break;
+		}
+		case 'E': {
+			size_t i = 0;
+			sc.VisitKeys([&](auto&& key) {
+				if (i >= nd.body.size()) return;
+				const Node& act = nd.body[i++];
+				switch (act.kind) {
+				case 'k': break;
+				case 'x':
+					throw SerializationException(act.target == "O" ? SerializationErrorCode::Overflow : SerializationErrorCode::MismatchedTypes, "thrown by the callback");
+				case 'g':
+					with_target(act.target, [&](auto& value) { return sc.SerializeValue(key, value); });
+					break;
+				case 'o': {
+					auto child = sc.OpenObjectScope(key, 0);
+					if (child) { emit("("); walk_obj(*child, act.body); emit(")"); } else emit("n");
+					break;
+				}
+				case 'a': {
+					auto child = sc.OpenArrayScope(key, 0);
+					if (child) { emit("("); walk_arr(*child, act.body); emit(")"); } else emit("n");
+					break;
+				}
+				case 'b': {
+					auto child = sc.OpenBinaryScope(key, 0);
+					if (child) { emit("("); read_bytes(*child, act.n); emit(")"); } else emit("n");
+					break;
+				}
+				case 'c': {
+					bool done = false;
+					{
+						auto child = sc.OpenBinaryScope(key, 0);
+						if (child) { emit("("); read_bytes(*child, act.n); emit(")"); done = true; } else emit("n");
+					}
+					if (!done) {
+						auto child = sc.OpenArrayScope(key, 0);
+						if (child) { emit("("); walk_arr(*child, act.body); emit(")"); } else emit("n");
+					}
+					break;
+				}
+				default: throw DriverError{"bad callback action"};
+				}
+			});
 			break;
 		}
 		default: throw DriverError{"array item in an object scope"};
